@@ -401,11 +401,13 @@ func c04R2(c *Ctx, p *Prog) {
 	{
 		ok := false
 		detail := "no return found"
+		nRet, nGood := 0, 0
 		for _, b := range tidy.Blocks {
 			ret, isRet := b.Instrs[len(b.Instrs)-1].(*ssa.Return)
 			if !isRet || len(ret.Results) != 2 {
 				continue
 			}
+			nRet++
 			mul, isMul := ret.Results[0].(*ssa.BinOp)
 			if !isMul || mul.Op != token.MUL {
 				detail = "first result is not a product"
@@ -433,6 +435,11 @@ func c04R2(c *Ctx, p *Prog) {
 				continue
 			}
 			ok = true
+			nGood++
+		}
+		if ok && nGood != nRet {
+			ok = false
+			detail = fmt.Sprintf("%d of %d returns hand back something else (the value as written under the written unit, for some values): one metric is then split between two units depending on the magnitude of the measurement", nRet-nGood, nRet)
 		}
 		c.Check(ok, R, "Tidy:value*factor", p.pos(tidy.Pos()), "Tidy returns (value*factor, unit') with both from one call on its unit argument", "Tidy's result is not value*factor with the rewritten unit: "+detail)
 	}
